@@ -167,7 +167,8 @@ def tree_k(rep, pid, binp, seed, n):
                                'lossy-cache-key finding (C01/C17/C10), not a model error; the model is compared with the exact-key run',
         'input_distribution': dict(sorted(feats.items())),
         'excluded': 'flex and grid CONTAINERS (flex / grid leaves are included), calc() values',
-        'first_disagreements': [describe_diff(c, a, b) for c, a, b in bad[:5]],
+        'first_disagreements': ['idx %d: %s (vh blocktree case %d %d)' % (cases.index(c), describe_diff(c, a, b), seed, cases.index(c))
+                                for c, a, b in bad[:5]],
     }
     return bad
 
